@@ -8,8 +8,8 @@ From Miller Require Import Base.Bytes.
 Open Scope N_scope.
 
 Definition known_bad : list (bytes * N) := [
-  (* integer division by zero in int-only paths *)
-  (B "./", 80); (B "madd", 80); (B "msub", 80); (B "mmul", 80); (B "mexp", 80);
+  (* integer division by zero in int-only paths (./, madd, msub, mmul, mexp): repaired in /repo by 94ff40520 and
+     83ceb0713 while this check was being built; no longer excepted, so a regression breaks the theorem *)
   (* interpolated percentile index out of range / non-numeric p *)
   (B "percentile", 80); (B "percentiles", 80); (B "median", 80);
   (B "percentile", 73); (B "percentiles", 73); (B "median", 73);
